@@ -22,16 +22,19 @@ ResetTo(m, t) ==
   /\ rec' = [r \in RKeys |-> NoEntry]
   /\ firstObs' = [s \in Series |-> None]
   /\ everObs' = {} /\ obs' = {} /\ steps' = 0
+  /\ staleRec' = {} /\ slot' = [o \in Observers |-> NoSlot]
 
 \* PrometheusBuilder::idle_timeout(mask, None) stores MetricKindMask::NONE
 EffMask(r) == IF r.mode = "prom" /\ r.timeout = None THEN {} ELSE Rng(r.mask)
 
-\* observations of the step just taken that deviate from the property under the CF12 pattern
-Cf12(o) == o.keep # o.exp /\ o.interf
-ReportKnown == IF \E o \in obs' : Cf12(o)
-               THEN LET o == CHOOSE x \in obs' : Cf12(x)
-                    IN Known("CF12", <<o.s[1], o.s[2], IF o.keep THEN "kept" ELSE "dropped", now>>)
-               ELSE TRUE
+\* observations of the step just taken that deviate from the property under a listed pattern
+Cf12c(o) == o.keep # o.exp /\ StaleAllow(o)
+Cf12(o) == ~KeyByKind /\ o.keep # o.exp /\ o.interf /\ ~StaleAllow(o)
+Report(tag, P(_)) == IF \E o \in obs' : P(o)
+                     THEN LET o == CHOOSE x \in obs' : P(x)
+                          IN Known(tag, <<o.s[1], o.s[2], IF o.keep THEN "kept" ELSE "dropped", now>>)
+                     ELSE TRUE
+ReportKnown == Report("CF12", Cf12) /\ Report("CF12c", Cf12c)
 
 Present(r) == {s \in Series : r[s].present}
 \* gen / val = -1: not observable in that mode
@@ -52,6 +55,16 @@ TraceNext ==
                              /\ R.val = reg[S(R)].val                  \* value read from the handle
                              /\ ReportKnown
        [] Ev = "observe_missing" -> S(R) \in Series /\ ~reg[S(R)].present /\ Step /\ UNCHANGED vars
+       [] Ev = "remove"   -> /\ S(R) \in Series /\ R.existed = reg[S(R)].present     \* delete_* / retain_* of one key
+                             /\ RemoveSet(IF R.existed THEN {S(R)} ELSE {}) /\ Step
+       [] Ev = "clear"    -> RemoveSet(Present(reg)) /\ Step
+       [] Ev = "o.snap"   -> S(R) \in Series /\ R.ob \in Observers /\ Snap(R.ob, S(R)) /\ Step
+       [] Ev = "o.decide" -> /\ R.ob \in Observers /\ slot[R.ob].on /\ slot[R.ob].s = S(R)
+                             /\ R.gen = (IF slot[R.ob].live THEN reg[S(R)].gen ELSE slot[R.ob].gen)
+                             /\ SlotDecide(R.ob) /\ Step
+                             /\ \A o \in obs' : o.keep = R.keep
+                             /\ R.present = reg'[S(R)].present
+                             /\ ReportKnown
        [] Ev = "snap"     -> /\ Rng(R.series) = {<<s[1], s[2], reg[s].gen, reg[s].val>> : s \in Present(reg)}
                              /\ Step /\ UNCHANGED vars
        [] Ev = "render"   -> /\ Render /\ Step
